@@ -406,6 +406,54 @@ def library_law(ctx, fmts):
     ctx.bump("library_law_samples", n)
 
 
+def run_orjson_options(ctx):
+    """Config.orjson_options / the orjson_options keyword are the class's OWN: the document of every class
+    equals orjson.dumps(basic form with natives, option=<options in effect for THAT class>), whatever other
+    ORJSON classes with other options exist in the process (and in whatever order they were created)"""
+    import sys
+    import types
+    import typing
+
+    try:
+        import orjson
+        from mashumaro.config import BaseConfig
+        from mashumaro.mixins.orjson import DataClassORJSONMixin
+    except Exception:  # noqa
+        return
+    m = types.ModuleType("c04_orjson_options")
+    sys.modules[m.__name__] = m
+    rng = ctx.rng
+    OPTS = [None, 0, orjson.OPT_OMIT_MICROSECONDS, orjson.OPT_SORT_KEYS, orjson.OPT_NAIVE_UTC | orjson.OPT_UTC_Z, orjson.OPT_OMIT_MICROSECONDS | orjson.OPT_SORT_KEYS]
+    try:
+        classes = []
+        order = [rng.choice(OPTS) for _ in range(6)]
+        for i, opt in enumerate(order):
+            ns = {"__annotations__": {"z": datetime.datetime, "a": typing.Dict[str, int]}, "__module__": m.__name__}
+            if opt is not None:
+                ns["Config"] = type("Config", (BaseConfig,), {"orjson_options": opt})
+            C = type(f"OJ{i}", (DataClassORJSONMixin,), ns)
+            setattr(m, C.__name__, C)
+            classes.append((dataclasses.dataclass(C), opt))
+        v = dict(z=datetime.datetime(2024, 2, 29, 1, 2, 3, 456789), a={"b": 1, "a": 2})
+        for C, opt in classes:
+            obj = C(**v)
+            for kw_opt in (None, orjson.OPT_SORT_KEYS | orjson.OPT_OMIT_MICROSECONDS):
+                case = {"template": "orjson_options", "class_options": opt, "keyword": kw_opt, "creation_order": order}
+                ctx.count(case, True, kind="template:orjson_options")
+                eff = kw_opt if kw_opt is not None else (opt or 0)
+                want = orjson.dumps({"z": v["z"], "a": v["a"]}, option=eff)
+                try:
+                    got = obj.to_jsonb(**({"orjson_options": kw_opt} if kw_opt is not None else {}))
+                except Exception as e:  # noqa
+                    ctx.violation(case, {"error": f"{type(e).__name__}: {e}"[:200]}, "to_jsonb succeeds", "to_jsonb failed", lambda f: False)
+                    continue
+                if got != want:
+                    ctx.violation(case, {"document": got.decode()}, {"orjson.dumps(native form, option=options of this class)": want.decode()},
+                                  "the orjson options in effect are not those of the class / call", lambda f: False)
+    finally:
+        sys.modules.pop(m.__name__, None)
+
+
 def run_templates(ctx, fmts):
     """format-specific shapes: Self-typed nodes carrying the format's native types (every nesting
     level must be treated like the top), and user default_dialects that re-define a native type"""
@@ -456,6 +504,27 @@ def run_templates(ctx, fmts):
                     ctx.violation(case, {"parsed_document": repr(got)[:500]}, {"format_encoding_of_basic_form": repr(want)[:500]}, "nested Self instance is not encoded like the top-level one", lambda f: False)
                 if back != obj:
                     ctx.violation(case, {"decoded": repr(back)[:500]}, {"original": repr(obj)[:500]}, "decode(encode(v)) != v for a Self-typed class", lambda f: False)
+            # an instance of a SUBCLASS held in positions typed with its base class: the document is the
+            # format encoding of the basic form (to_dict keeps the subclass's members, so must every format)
+            def dcm(name, bases, ann, ns):
+                c = type(name, bases, {"__annotations__": ann, "__module__": m.__name__, **ns})
+                setattr(m, name, c)
+                return dataclasses.dataclass(c, kw_only=True)
+
+            Base = dcm(f"Base_{fname}", (Mixin,), {"kind": str}, {"kind": "base"})
+            Sub = dcm(f"Sub_{fname}", (Base,), {"kind": str, "extra": int, "tags": typing.List[str]}, {"kind": "sub", "extra": 0, "tags": dataclasses.field(default_factory=list)})
+            SubSub = dcm(f"SubSub_{fname}", (Sub,), {"deep": str}, {"deep": "d"})
+            Hold = dcm(f"Hold_{fname}", (Mixin,), {"one": Base, "many": typing.List[Base], "by_key": typing.Dict[str, Base]}, {})
+            hv = Hold(one=Sub(extra=7, tags=["t"]), many=[Base(), Sub(extra=1), SubSub(extra=2, deep="x")], by_key={"k": SubSub(extra=3)})
+            case = {"template": "subclass instances in positions typed with the base class", "format": fname}
+            ctx.count(case, True, kind=f"template:{fname}")
+            try:
+                got = F["parse"](getattr(hv, to_m)())
+                want = hv.to_dict()
+                if not deep_eq(got, want):
+                    ctx.violation(case, {"parsed_document": repr(got)[:500]}, {"basic_form": repr(want)[:500]}, "members of a subclass instance are lost in the format document", lambda f: False)
+            except Exception as e:  # noqa
+                ctx.violation(case, {"error": f"{type(e).__name__}: {e}"[:300]}, "format mixin encodes subclass instances", "format mixin failed on a subclass instance", lambda f: False)
             # a user default_dialect that re-defines one of the format's native types: the user's wins, in both directions
             class Hex(Dialect):
                 serialization_strategy = {
@@ -505,13 +574,15 @@ def run(ctx):
     ctx.extra["formats"] = sorted(fmts)
     library_law(ctx, fmts)
     run_templates(ctx, fmts)
+    for _ in range(3 if ctx.tier == "quick" else 40):
+        run_orjson_options(ctx)
     n, depth = (700, 3) if ctx.tier == "quick" else (12000, 4)
     done = 0
     while done < n and ctx.time_left() > 40:
         k = min(350, n - done)
         run_cases(ctx, gen_cases(ctx, k, depth), fmts)
         done += k
-    for mode in (True, "newtype", "typealias"):
+    for mode in S.WRAP_MODES:
         if ctx.time_left() > 60:
             with ctx.wrapped(mode):
                 run_cases(ctx, gen_cases(ctx, 100 if ctx.tier == "quick" else 1500, depth), fmts)
@@ -528,6 +599,9 @@ def replay(ctx, body):
         run_cases(ctx, [(c["ty"], c["value"])], {c["format"]: fmts[c["format"]]} if c.get("format") in fmts else fmts)
     elif c and "library_law" in c:
         library_law(ctx, fmts)
+    elif c and c.get("template") == "orjson_options":
+        for _ in range(3):
+            run_orjson_options(ctx)
     elif c and "template" in c:
         run_templates(ctx, fmts)
     return ctx.finish()
